@@ -208,14 +208,18 @@ def components(ctx):
              "DH generate_pub/compute with random and leading-zero private values, entropy failure, and failure of the k-th OpenSSL "
              "allocation for k in 1..60 (every rung of the BIGNUM error ladder); key files that fail after the secret line "
              "(garbage, duplicate, unknown key, missing id, missing EOL, over-long line), lines of 100..3000 characters before / after "
-             "the secret line (also as the failing line), secrets of 1..200 characters. Every case is non-trivial; distinct by hash.",
+             "the secret line (also as the failing line), secrets of 1..200 characters; 1 op in 25: the AES-NI key expansion called "
+             "directly with an unsupported key length (24, 20, 33, 48, 64, 17, 31, 8, 0; key buffer >= 32 bytes), every 8-byte window "
+             "of the raw key armed: the half-built object released on the error path must hold none. Every case is non-trivial; "
+             "distinct by hash.",
         classify=classify, ldflags=LDFLAGS, sanitize=False, opt="-O2", ignore_l2=True,
         env={"HWIPE_TMP": tmp}),
         vlib.Component(
         "wipeall", "h_wipe.c", SRCS, ["wipe"], gen_keys,
         nontrivial=lambda c: True,
         rule="the same operations in an AddressSanitizer build, where __sanitizer_free_hook shows EVERY block released while a secret "
-             "is armed (also blocks released inside libc, e.g. by getline/realloc moving a line buffer); 70% key files.",
+             "is armed (also blocks released inside libc, e.g. by getline/realloc moving a line buffer); 70% key files; 1 op in 25 "
+             "aeskeybad (unsupported key length handed to crypto_aes_key_expand_aesni).",
         classify=classify, ldflags=LDFLAGS, ignore_l2=True, env={"HWIPE_TMP": tmp}),
         vlib.Component(
         "wipesoft", "h_wipe.c", SRCS, ["wipe"], gen_soft,
